@@ -3,7 +3,7 @@ import json, os, copy, re, resource, subprocess
 import vlib, cellcommon
 from vlib import Infra
 
-RULE = ("S->C: Boc_Fuzz (TLC) mutates small conforming bags (every truncation, 5..20 substitution values at every byte) and labels "
+RULE = ("S->C: Boc_HdrFuzz (TLC) composes adversarial headers (3 magics x flags x ref width 1..4 x offset width 1..8 x counters from byte patterns up to 2^32-1 x short tails); Boc_Fuzz (TLC) mutates small conforming bags (every truncation, 5..20 substitution values at every byte) and labels "
         "each mutant with the first guard of Boc!Parse it fails; all mutants are fed to the real parser. C->S: truncations, "
         "substitutions, bit flips, multi-byte mutations of own output and of bags harvested from the repository, hand-written "
         "adversarial headers and random bytes; each call runs in a child process under recover with allocation and time measured; "
@@ -77,6 +77,13 @@ def run(ck):
     cfg = "gen/Boc_Fuzz_full.cfg" if ck.thorough else "gen/Boc_Fuzz_quick.cfg"
     res = ck.tlc_or_infra("Boc_Fuzz", cfg, workers=8, timeout=2400, name="boc_fuzz", heap_gb=8)
     muts = res.vecs()
+    # adversarial headers: every magic / flag combination / width with counters from byte patterns
+    hres = ck.tlc_or_infra("Boc_HdrFuzz", "gen/Boc_HdrFuzz_full.cfg" if ck.thorough else "gen/Boc_HdrFuzz_quick.cfg", workers=8, timeout=2400, name="boc_hdrfuzz", heap_gb=8)
+    hdrs = hres.vecs()
+    if len(hdrs) < 1000:
+        raise Infra("Boc_HdrFuzz produced only %d headers" % len(hdrs))
+    ck.extra["spec_headers"] = len(hdrs)
+    muts = muts + hdrs
     guards = {}
     for m in muts:
         guards[m["guard"]] = guards.get(m["guard"], 0) + 1
